@@ -426,7 +426,7 @@ pub fn must_reject(name: &str, v: usize) -> bool {
         "VectorGet" => &[0, 1, 2],
         "Zip" => &[0, 1, 2],
         "Stack" => &[0, 1, 2, 3, 6],
-        "Concat" => &[0, 1, 2, 4, 5],
+        "Concat" => &[0, 1, 2, 4, 5, 6],
         "Gather" => &[0, 2, 3, 4, 5],
         "CuckooHash" => &[0, 1, 3, 4, 5, 6],
         "SegmentCumSum" => &[0, 1, 2, 3, 4, 5],
@@ -1320,7 +1320,7 @@ impl Interp {
                 self.call(pool, name, vv, || g.stack(parts, outer))
             }
             O::Concat => {
-                let vv = v.map(|x| x % 6);
+                let vv = v.map(|x| x % 7);
                 let ia = if vv == Some(5) {
                     some!(self.opnd(pool, s.a, 0, wild, seed, &scalar_type(st_from(s.p[0])), InKind::Plain, &|t: &Type| matches!(t, Type::Scalar(_))))
                 } else {
@@ -1328,7 +1328,9 @@ impl Interp {
                 };
                 let ta = pool.types[ia].clone();
                 let (st, sa) = if is_arr(&ta) { (Some(leaf_st(&ta)), leaf_shape(&ta)) } else { (None, vec![2]) };
-                let axis = (s.p[0] as usize) % sa.len();
+                // variant 6: a dimension BEFORE the concatenation axis differs (needs rank >= 2)
+                let vv = if vv == Some(6) && (sa.len() < 2 || !is_arr(&ta)) { None } else { vv };
+                let axis = if vv == Some(6) { 1 + (s.p[0] as usize) % (sa.len() - 1) } else { (s.p[0] as usize) % sa.len() };
                 let sa2 = sa.clone();
                 let ok = move |t: &Type| {
                     t.is_array() && Some(leaf_st(t)) == st && {
@@ -1344,6 +1346,12 @@ impl Interp {
                         Some(2) | Some(3) | Some(4) if j == 1 && is_arr(&ta) => {
                             let w = perturb_type(&ta, [3usize, 6, 0][vv.unwrap() - 2]);
                             some!(self.fresh(pool, &w, InKind::Plain, seed))
+                        }
+                        Some(6) if j == 1 => {
+                            // first dimension differs by +1 or -1 (axis >= 1)
+                            let mut w = sa.clone();
+                            if s.p[2] & 1 == 0 || w[0] == 1 { w[0] += 1 } else { w[0] -= 1 }
+                            some!(self.fresh(pool, &leaf_type(st.unwrap(), &w), InKind::Plain, seed))
                         }
                         _ => pool.pick_where(sel, &ok).unwrap_or(ia),
                     };
